@@ -31,6 +31,7 @@ import (
 	"github.com/conduitio/conduit/pkg/foundation/cerrors/conduiterr"
 	"github.com/conduitio/conduit/pkg/foundation/log"
 	"github.com/conduitio/conduit/pkg/foundation/metrics"
+	"github.com/conduitio/conduit/pkg/foundation/verifhook"
 	"github.com/conduitio/conduit/pkg/plugin"
 	"github.com/sourcegraph/conc/pool"
 )
@@ -603,6 +604,9 @@ func (w *Worker) doTaskAttempt(
 		return cerrors.Errorf("task %s: %w", t.ID(), err)
 	}
 
+	if taskNode.IsFirst() {
+		verifhook.At("funnel.batch-read")
+	}
 	if taskNode.IsFirst() {
 		// The first task has some specifics:
 		// - Store last time we read a batch from the source for metrics.
